@@ -11,14 +11,18 @@ import json
 
 
 class Minimiser(object):
-    def __init__(self, execute, workdir, budget=250):
+    def __init__(self, execute, workdir, budget=250, seconds=120):
+        import time
         self.execute = execute
         self.workdir = workdir
         self.budget = budget
         self.used = 0
+        self.deadline = time.time() + seconds     # wall-clock bound on the whole minimisation (harness time, not simulated)
 
     def fails(self, spec, signature):
-        if self.used >= self.budget:
+        import time
+        if self.used >= self.budget or time.time() > self.deadline:
+            self.used = max(self.used, self.budget)
             return None
         self.used += 1
         try:
